@@ -32,6 +32,14 @@ def special_points(cls, kw, rng, nps):
             for ax in rng.sample(range(3), rng.choice([1, 2, 3])):
                 p[ax] = rng.choice(vals(a[ax]))
             pts.append(p)
+        # just outside the wrapper's 1e-15 edge mask: relative offsets 1e-14 ... 1e-9 from an edge line
+        for _ in range(4):
+            p = list(nps.uniform(-0.9, 0.9, 3) * a)
+            ax1, ax2 = rng.sample(range(3), 2)
+            e = 10.0 ** rng.choice([-14, -13, -12, -11, -9, -8])
+            p[ax1] = rng.choice([-1, 1]) * a[ax1] * (1 + rng.choice([-1, 1]) * e)
+            p[ax2] = rng.choice([-1, 1]) * a[ax2] * (1 + rng.choice([-1, 0, 1]) * e)
+            pts.append(p)
     elif cls in ("Cylinder", "Circle"):
         r0 = (kw["dimension"][0] if cls == "Cylinder" else kw["diameter"]) / 2
         h = kw["dimension"][1] / 2 if cls == "Cylinder" else 0.0
@@ -143,6 +151,14 @@ def sweep(ctx, n):
                     v = np.asarray(c["kw"]["vertices"], float)
                     size = float(np.max(np.abs(v))) + 1e-300
                     bad = [j for j in bad if np.min(np.linalg.norm(v - np.asarray(c["obs"][j]), axis=1)) > 1e-12 * size]
+                if bad and c["cls"] == "Cuboid":
+                    # observers closer than 1e-9 (relative) to an edge line but outside the 1e-15 edge mask: own key
+                    a_ = np.abs(np.asarray(c["kw"]["dimension"], float)) / 2
+                    near = [j for j in bad if np.all(a_ > 0) and np.sum(np.abs(np.abs(np.asarray(c["obs"][j])) - a_) / a_ < 1e-7) >= 2]
+                    if near:
+                        fails.append({"key": f"non-finite:Cuboid:near-edge:{f}", "desc": f"get{f} is not finite at an observer a relative 1e-14 … 1e-8 off an edge line of a Cuboid",
+                                      "replay": {"class": "Cuboid", "kw": c["kw"], "observer": c["obs"][near[0]], "field": f}})
+                    bad = [j for j in bad if j not in near]
                 if bad:
                     j = bad[0]
                     fails.append({"key": f"non-finite:{c['cls']}:{c['variant']}:{f}", "desc": f"get{f} is not finite at a finite observer",
